@@ -242,8 +242,17 @@ func ReadFile(name string) ([]byte, error) {
 	if DiskLatency > 0 {
 		time.Sleep(DiskLatency)
 	}
+	if f := ReadFault; f != nil {
+		if err := f(name); err != nil {
+			return nil, err
+		}
+	}
 	return ioutil.ReadFile(name)
 }
+
+// ReadFault, when set by the simulator, is asked before every file read; a non-nil error is what the read
+// returns (an unreadable or vanished file, a disk error).
+var ReadFault func(name string) error
 
 var reinit []func()
 
